@@ -3,7 +3,6 @@ package handlers
 import (
     "io"
     "net/http"
-    "strings"
 
     "Havoc/pkg/colors"
     "Havoc/pkg/logger"
@@ -45,7 +44,7 @@ func (e *External) Request(ctx *gin.Context) {
     logger.Debug(" - Exc2 Host : " + ctx.Request.Host)
     logger.Debug(" - Exc2 Body : \n" + hex.Dump(Body))
 
-    ExternalIP := strings.Split(ctx.Request.RemoteAddr, ":")[0]
+    ExternalIP := peerAddress(ctx.Request.RemoteAddr)
 
     if Response, Success := parseAgentRequest(e.Teamserver, Body, ExternalIP); Success {
         _, err := ctx.Writer.Write(Response.Bytes())
